@@ -257,6 +257,8 @@ def classify_listing(label, case):
 
 def validate_listing(H, n):
     """Encoder validation: interpreter vs compiled listing on concrete texts (pieces and counts)."""
+    if H.worker:
+        return
     import random
     rnd = random.Random(H.seed * 31 + 5)
     replay = H.get_replay()
@@ -449,6 +451,9 @@ def main():
             fn = confirm_listing
         elif lab.startswith("T"):
             fn = confirm_type
+        elif lab.startswith("B"):
+            import parse_common as PC
+            fn = PC.confirm_conformance
         elif lab.startswith("R"):
             import c08
             fn = c08.confirm
@@ -458,7 +463,7 @@ def main():
         reproduced, detail = fn(H, lab, rec["case"])
         print(("REPRODUCED: " if reproduced else "NOT REPRODUCED: ") + detail)
         return 1 if reproduced else 0
-    only = os.environ.get("C15_PARTS", "LTSU")
+    only = os.environ.get("C15_PARTS", "LTSUB")
 
     def run(name, mk, confirm_fn, classify_fn=None, prefixes=None):
         t0 = time.time()
@@ -493,7 +498,19 @@ def main():
         n9 = 3 if quick else 4
         run("unexpected-symbol diagnostics (C09 exploration, %d characters)" % n9, c09.make_factory(H, n9, first, last), c09.confirm, prefixes=("T2.error-range",))
         H.bounds["unexpected symbols"] = "texts of %d code points" % n9
-    H.bounds["outside"] = "ranges computed by the packrat parser (span(..), implicit parameters); rendering with colour on; display width of wide or combining characters (the overline is checked to count characters); listing on longer texts"
+    if "B" in only:
+        import parse_common as PC
+        import c07
+        import c09
+        PC.validate_parser(H, 20 if quick else 100)
+        first, last = c09.first_last()
+        ob = PC.conformance_obligations(PC.Grammar(), want_b3=True, want_b12=True)
+        alpha = c07.FAMILIES["binders and arrows"]
+        sizes = [3, 5, 6] if quick else [3, 5, 6, 7]
+        for n in sizes:
+            run("binder ranges from the packrat parser, %d tokens over {%s}" % (n, " ".join(alpha)), PC.parser_factory(H, n, ob, first, last, alphabet=alpha), PC.confirm_conformance, prefixes=("B2", "B3"))
+        H.bounds["parser binder ranges"] = "token sequences of %s tokens over {%s}: every accepted sequence: each node spans its first to last token, each lambda/pi/let binder (plain, implicit, annotated) has its identifier's range" % (sizes, " ".join(alpha))
+    H.bounds["outside"] = "other ranges computed by the packrat parser (span(..), implicit parameters); rendering with colour on; display width of wide or combining characters (the overline is checked to count characters); listing on longer texts"
     H.assumptions += ["ranges handed to listing lie on character boundaries and begin and end with a token character (they are unions of token spans), or are empty, or are a single line-break token",
                       "std::char::is_whitespace and the UTF-8 width of a code point are read from the compiled standard library and validated each run"]
     return H.finish()
